@@ -95,7 +95,8 @@ def fix_10(r):
         sub(r, N + f, "            and self.rd == other.rd\n            and self.source == other.source", "            and self.rd == other.rd\n            and self.source_as == other.source_as\n            and self.source == other.source")
 
 
-FIXES = {2: fix_2, 3: fix_3, 4: fix_4, 5: fix_5, 6: fix_6, 7: fix_7, 8: fix_8, 10: fix_10}
+# fix_10 is NOT proposed: tests/unit/test_mvpn.py::test_sharedjoin_inequality pins the current == (Source AS left out): a known finding instead
+FIXES = {2: fix_2, 3: fix_3, 4: fix_4, 5: fix_5, 6: fix_6, 7: fix_7, 8: fix_8}
 here = os.path.dirname(os.path.abspath(__file__))
 for n, f in FIXES.items():
     root = '/tmp/c15one'
